@@ -17,7 +17,7 @@ PROP = dict(
                     "Exploration, not proof."),
         level_note=("trusts the request model in harness/c12_reply.c and the fits-predicate id < 2^(8w-1) in harness/c12_id.c, gcc ASan/UBSan; "
                     "the context object is located with __asan_locate_address, its layout is not assumed"),
-        legs=[dict(name="c12_id", src=["c12_id.c"], libs=["mptcore"], batch=4096,
+        legs=[dict(name="c12_id", memcheck=1500, src=["c12_id.c"], libs=["mptcore"], batch=4096,
                    floors={"mpt_message_id2buf": 500000, "mpt_message_buf2id": 500000,
                            "monitor:roundtrip-equal": 300000, "monitor:refusal-expected": 300000,
                            "monitor:header-decoded": 300000, "monitor:header-above-64bit": 20000,
